@@ -187,9 +187,11 @@ Sch(keys, d, m, fs) == [keys |-> keys, delim |-> d, missing |-> m, fields |-> fs
 Dat(n, short, delta, bf, bc) == [ncols |-> n, short |-> short, delta |-> delta, badf |-> bf, badc |-> bc]
 GoodData(s) == Dat(Len(s.fields), 0, "none", 0, "-")
 
-BadCells(t) == CASE t = "integer" -> {"junk", "floattext", "emptytext", "nonetext"}
-                 [] t = "float" -> {"junk", "emptytext", "nonetext"}
-                 [] t = "complex" -> {"junk", "emptytext", "nonetext"}
+\* "booltext": a boolean VALUE in a numeric column - its text is True / False, not a number, whatever the
+\* host language thinks about booleans being integers
+BadCells(t) == CASE t = "integer" -> {"junk", "floattext", "emptytext", "nonetext", "booltext"}
+                 [] t = "float" -> {"junk", "emptytext", "nonetext", "booltext"}
+                 [] t = "complex" -> {"junk", "emptytext", "nonetext", "booltext"}
                  [] OTHER -> {}
 (* "emptytext" IS the marker when the marker is empty - then it parses (as the fill) *)
 Parseable(t, bc, m) == \/ t \in {"string", "boolean"}
